@@ -4,6 +4,7 @@ mod rng;
 mod sx;
 mod c31;
 mod par;
+mod roundtrip;
 mod scanlist;
 mod c32;
 mod alpha;
@@ -21,6 +22,7 @@ mod c12;
 mod rx;
 mod c15;
 mod c16;
+mod c18;
 
 pub struct Args {
     pub cmd: String,
@@ -65,6 +67,7 @@ fn main() {
     match a.cmd.as_str() {
         "c31" => c31::run(&a),
         "par" => par::run(&a),
+        "roundtrip" => roundtrip::run(&a),
         "scanlist" => scanlist::run(&a),
         "c32" => c32::run(&a),
         "c06" => c06::run_ff(&a),
@@ -79,6 +82,7 @@ fn main() {
         "c12" => c12::run(&a),
         "c15" => c15::run(&a),
         "c16" => c16::run(&a),
+        "c18" => c18::run(&a),
         other => {
             eprintln!("unknown subcommand {other}");
             std::process::exit(2)
